@@ -232,11 +232,10 @@ def run(ctx):
                           signature='C18-steps-leave-domain-nan', **rep)
             continue
         if not err <= bound:
-            # recorded finding: log1p kernel, spiral path, order 8 with step ratios of about 16 — the same short and wide step sequence as
-            # C18-steps-leave-domain-nan: most steps lie outside |w| < 1, where log1p(w)/w is not given by its expansion at 0, the order-8
-            # Richardson stage consumes the samples that are left and the estimate rests on one or two values
-            sig = 'C18-log1p-order8-ratio16-spiral' if (rep.get('kernel') == 'log1p' and rep.get('order') == 8 and path == 'spiral'
-                                                         and float(ratio) >= 15.9) else None
+            # recorded finding: log1p kernel (the only kernel with a singularity at distance 1), order 7 or 8, step ratio >= 8 — the same
+            # short and wide step sequence as C18-steps-leave-domain-nan: most steps lie outside |w| < 1, where log1p(w)/w is not given by
+            # its expansion at 0, the high-order Richardson stage consumes the samples that are left and the estimate rests on one or two
+            sig = 'C18-log1p-high-order-wide-ratio' if (rep.get('kernel') == 'log1p' and rep.get('order', 0) >= 7 and float(ratio) >= 8.0) else None
             ctx.violation('%s does not recover g(z0) within the reported error estimate' % rep['kind'], got=str(v), exact=str(exact), error=err,
                           error_estimate=est, signature=sig, **rep)
     # Residue with legal but very small base steps (the documented `scale` option: base step EPS**(1/scale), or a user step of 1e-15), at
